@@ -66,6 +66,8 @@ func (a *scripted) Authenticate(params interface{}) (bool, interface{}, error) {
 	switch {
 	case o == "ok":
 		return true, principalOf(a.name), nil
+	case o == "okempty":
+		return true, "", nil
 	case o == "okro":
 		if admScope(sar.RequiredScopes) {
 			return true, nil, oerr.New(http.StatusForbidden, rejMessage(a.name, o))
